@@ -377,7 +377,11 @@ fn random_trace(mode: &str, rng: &mut SmallRng, steps: usize) -> Sim {
                         cands.push((4, json!({"op": "write", "e": e, "h": h, "len": len})));
                     }
                 }
-                cands.push((4, json!({"op": "read", "e": e, "h": h, "max": pick(rng, &[1usize, 2, 8])})));
+                match rng.random_range(0..4) {
+                    0 => cands.push((4, json!({"op": "read", "e": e, "h": h, "max": pick(rng, &[1usize, 2, 8]), "pre": pick(rng, &[1usize, 2, 5])}))),
+                    1 => cands.push((4, json!({"op": "read", "e": e, "h": h, "max": pick(rng, &[1usize, 2, 8]), "via": "buf"}))),
+                    _ => cands.push((4, json!({"op": "read", "e": e, "h": h, "max": pick(rng, &[1usize, 2, 8])}))),
+                }
                 if closes {
                     cands.push((1, json!({"op": "shutdown", "e": e, "h": h})));
                     cands.push((1, json!({"op": "drop", "e": e, "h": h})));
